@@ -2,6 +2,7 @@
 import io
 import json
 import os
+import sys
 import traceback
 
 from vlib import asm, cells, diff, env, vocab
@@ -186,6 +187,22 @@ def judge(data, loader_check=False):
                             fickling.load(fh, max_acceptable_severity=T)
                     finally:
                         os.remove(fpath)
+                elif T in (Severity.POSSIBLY_UNSAFE, Severity.SUSPICIOUS):
+                    # the documented print_results option, in a process whose sys.stdout is absent
+                    # (pythonw, a daemon) or a bare write()/flush() object (a log tee)
+                    class _Tee:
+                        def write(self, s):
+                            return len(s)
+
+                        def flush(self):
+                            pass
+
+                    saved = sys.stdout
+                    sys.stdout = None if T == Severity.POSSIBLY_UNSAFE else _Tee()
+                    try:
+                        fickling.load(io.BytesIO(data), max_acceptable_severity=T, print_results=True)
+                    finally:
+                        sys.stdout = saved
                 else:
                     fickling.load(io.BytesIO(data), max_acceptable_severity=T)
             except UnsafeFileError as e:
@@ -359,6 +376,18 @@ def run_shard(spec, seed):
                         + b"\x8c" + bytes([len(name.encode("utf-8", "surrogatepass"))]) + name.encode("utf-8", "surrogatepass") + b"\x93" + tail)  # fmt: skip
                 f, klass = judge(data)
                 res.note(data, klass != "refused", klass=[klass, "awkward-name"], sample={"hex": data.hex()})
+                if f is not None:
+                    res.failures.append(f)
+                    return res
+        # a finding that names a position in the pickle, at every position up to 300: a second (and
+        # third) PROTO opcode after k filler opcodes, a late PROTO of another version
+        for k in range(0, 301):
+            for data in (b"\x80\x02" + b"N0" * k + b"\x80\x02N.",
+                         b"\x80\x02N" + b"0N" * k + b"\x80\x02.",
+                         b"\x80\x04" + b"N0" * (k // 2) + b"\x80\x04" + b"N0" * (k - k // 2) + b"\x80\x03N.",
+                         b"N0" * k + b"\x80\x05N."):
+                f, klass = judge(data, loader_check=k % 25 == 0)
+                res.note(data, True, klass=[klass, "positioned-finding"], sample={"hex": data.hex()[:120], "fillers": k})
                 if f is not None:
                     res.failures.append(f)
                     return res
